@@ -26,6 +26,8 @@ Events (see `Lena.C20.Ev` in lean/LenaModel/Model/C20.lean):
     nomodule n        import of a module lena.* that does not exist in the tree
     enter / leave     a region (branch of an `if`, loop body, exception handler...) whose effects the resolver must
                       not assume afterwards
+    ext x             import-time `import x` of the third-party module x (ImportError when the environment lacks it)
+    tryBegin / tryExcept / tryEnd   a module-level `try` with a handler for ImportError
 
 Name classification (local / global / free) is taken from CPython's own `symtable`, so LEGB is exactly the
 compiler's.  Locals are invisible to the resolver except locals that are bound *only* by import statements
@@ -42,11 +44,20 @@ its end (the path on which an optional module is installed), its handlers are re
 A local that only import statements bind gets an identifier of its own (`lena (local)`): reading it where no import
 has certainly bound it is an UnboundLocalError (a NameError), never a read of the module's global of the same name.
 
-Static evaluation, under the assumption "CPython 3.12 with the installed distributions of this environment":
-`if` tests (and `and`/`or`/`not`/conditional expressions) decided by `sys.version_info` / `sys.version` alone, and
-`TYPE_CHECKING`, are evaluated and only the live branch is translated (the Python-2 branches are counted, not
-checked); in a module-level `try: <imports> except ImportError:` the availability of the external module decides
-which path is taken (the other one is still checked inside enter/leave).
+Environment.  A module outside lena and outside the standard library that import-time code imports (`jinja2` at
+the top of output/render_latex.py) is a *third-party* module: its import is an `ext` event, and whether it can be
+imported is a parameter of the resolver (`Facts.absent`, a bit set over `facts["ext"]`), not something the
+translator decides.  A module-level `try:` with a handler that catches ImportError is translated with its structure
+(tryBegin, body, tryExcept, handler, tryEnd), so the resolver takes the handler path exactly when an import of the
+body fails -- here or in a lena module imported from the body.  `facts["envs"]` lists the environments the instance
+theorem ranges over: every subset of the third-party modules (at most 3 of them; otherwise: as installed, none
+absent, each one absent, all absent); Python-2 standard-library modules (`future_builtins`) are absent in all of them.
+Imports of third-party modules inside functions stay plain bindings: a call that raises ImportError there has ended
+in the documented way, and everything after the import is still checked.
+
+Static evaluation, under the assumption "CPython 3.12": `if` tests (and `and`/`or`/`not`/conditional expressions)
+decided by `sys.version_info` / `sys.version` alone, and `TYPE_CHECKING`, are evaluated and only the live branch is
+translated (the Python-2 branches are counted, not checked).
 """
 from __future__ import annotations
 
@@ -65,6 +76,12 @@ from pathlib import Path
 GEN_REL = "LenaModel/Gen/C20Facts.lean"
 IMPLICIT = ["__name__", "__doc__", "__package__", "__loader__", "__spec__", "__file__", "__cached__", "__builtins__"]
 LOCAL_SUFFIX = " (local)"
+STDLIB = set(sys.stdlib_module_names)
+# modules of the Python-2 standard library: never importable under CPython 3 (not an environment dimension)
+PY2_ONLY = {"future_builtins", "cPickle", "cStringIO", "StringIO", "__builtin__", "ConfigParser", "Queue", "urllib2",
+            "urlparse", "HTMLParser", "httplib", "cookielib", "copy_reg", "commands", "dummy_thread", "thread",
+            "Tkinter", "xmlrpclib", "SocketServer", "UserDict", "UserList", "UserString", "anydbm", "dbhash", "gdbm",
+            "whichdb", "itertools_izip"}
 IMPORT_EXC = {"ImportError", "ModuleNotFoundError", "Exception", "BaseException"}
 
 
@@ -551,38 +568,29 @@ class ModuleTranslator:
             out.extend(evs)
 
     def try_(self, st, scope, out):
-        # first direct statement of the body that imports an external module which is not installed here
-        k_fail = None
-        # (inside a function the body is assumed to run to its end -- the path on which the module is installed --
-        # and the handlers are checked as regions; only import-bound locals depend on it there)
-        for k, b in enumerate(st.body if scope.kind != "function" else []):
-            mods = []
-            if isinstance(b, ast.Import):
-                mods = [a.name for a in b.names]
-            elif isinstance(b, ast.ImportFrom) and b.level == 0 and b.module:
-                mods = [b.module]
-            if any(not self.tr.is_lena(m) and not _ext_available(m) for m in mods):
-                k_fail = k
-                break
         catches = lambda h: h.type is None or any(
             isinstance(n, ast.Name) and n.id in IMPORT_EXC for n in ast.walk(h.type))
-        if k_fail is None:
+        catching = [h for h in st.handlers if catches(h)]
+        if scope.kind != "function" and catching:
+            # import-time code with a handler for ImportError: which path runs depends on the environment (an
+            # optional third-party module may be absent, here or in a module imported from here): the resolver decides
+            self.tr.stats["try_except_importerror"] += 1
+            out.append(("tryBegin",))
+            self.stmts(st.body, scope, out)
+            self.stmts(st.orelse, scope, out)
+            out.append(("tryExcept",))
+            self.handler(catching[0], scope, out, inline=True)
+            out.append(("tryEnd",))
+            for h in st.handlers:
+                if h is not catching[0]:
+                    self.handler(h, scope, out, inline=False)
+        else:
+            # (inside a function the body is taken to run to its end -- the path on which an optional module is
+            # installed -- and the handlers are checked as regions; only import-bound locals depend on it there)
             self.stmts(st.body, scope, out)
             for h in st.handlers:
                 self.handler(h, scope, out, inline=False)
             self.stmts(st.orelse, scope, out)
-        else:
-            self.tr.stats["try_import_not_installed"] += 1
-            self.stmts(st.body[:k_fail], scope, out)
-            self.region(st.body[k_fail:], scope, out, force=True)      # checked, effects not assumed
-            taken = False
-            for h in st.handlers:
-                if not taken and catches(h):
-                    self.handler(h, scope, out, inline=True)
-                    taken = True
-                else:
-                    self.handler(h, scope, out, inline=False)
-            self.region(st.orelse, scope, out, force=True)
         self.stmts(st.finalbody, scope, out)
 
     def handler(self, h, scope, out, inline):
@@ -637,7 +645,14 @@ class ModuleTranslator:
             else:
                 self.bind_name("lena", scope, out, mod=self.tr.modid["lena"])
         else:
+            self.ext_import(a.name, scope, out)
             self.bind_name(a.asname or a.name.split(".")[0], scope, out)
+
+    def ext_import(self, dotted, scope, out):
+        """import of a module outside lena in import-time code: third-party modules may be absent"""
+        top = dotted.split(".")[0]
+        if scope.kind != "function" and top not in STDLIB:
+            out.append(("ext", self.tr.ext_id(top)))
 
     def import_from(self, st, scope, out):
         self.tr.stats["imports"] += 1
@@ -655,6 +670,7 @@ class ModuleTranslator:
                 self.bind_name(a.asname or a.name, scope, out)
             return
         if not self.tr.is_lena(dotted):
+            self.ext_import(dotted, scope, out)
             for a in st.names:
                 if a.name == "*":
                     self.note("dynamic_external_star_import", st, dotted)
@@ -722,10 +738,16 @@ class Translator:
         self.repo = Path(repo)
         self.intern = Interner()
         self.stats = {k: 0 for k in ("loads", "attr_chains", "functions", "imports", "static_version_tests",
-                                     "statements_in_dead_version_branches", "try_import_not_installed")}
+                                     "statements_in_dead_version_branches", "try_except_importerror")}
         self.notes = []
         self.modid = {}
         self.modules = []
+        self.ext = []          # third-party (and Python-2 only) modules imported by import-time code
+
+    def ext_id(self, top):
+        if top not in self.ext:
+            self.ext.append(top)
+        return self.ext.index(top)
 
     def is_lena(self, dotted):
         return dotted == "lena" or dotted.startswith("lena.")
@@ -793,8 +815,21 @@ class Translator:
         entries = [self.modid[x] for x in mains]
         self.renumber(mods, n_builtins)
         priv = [i for i, s in enumerate(self.intern.names) if s.startswith("_")]
+        # the environments: which third-party modules of import-time code cannot be imported
+        always = sum(1 << i for i, x in enumerate(self.ext) if x in PY2_ONLY)
+        opt = [i for i, x in enumerate(self.ext) if x not in PY2_ONLY]
+        venv_env = always | sum(1 << i for i in opt if not _ext_available(self.ext[i]))
+        if len(opt) <= 3:
+            subsets = [sum(1 << opt[k] for k in range(len(opt)) if (b >> k) & 1) for b in range(1 << len(opt))]
+        else:
+            subsets = [0] + [1 << i for i in opt] + [sum(1 << i for i in opt)]
+        envs = []
+        for e in [venv_env] + [always | b for b in subsets]:
+            if e not in envs:
+                envs.append(e)
         return {"repo": str(self.repo), "source_hash": hasher.hexdigest(), "names": self.intern.names,
-                "n_bindable": self.n_bindable,
+                "n_bindable": self.n_bindable, "ext": list(self.ext), "envs": envs, "venv_env": venv_env,
+                "always_absent": [x for x in self.ext if x in PY2_ONLY],
                 "n_builtins": n_builtins, "modules": mods, "entries": entries, "private": priv,
                 "subpackages": subpkgs, "stats": self.stats, "notes": self.notes,
                 "python": sys.version.split()[0]}
@@ -879,6 +914,10 @@ def _ev(e):
         return ".enter"
     if k == "leave":
         return ".leave"
+    if k == "ext":
+        return f".ext {e[1]}"
+    if k in ("tryBegin", "tryExcept", "tryEnd"):
+        return "." + k
     raise ValueError(e)
 
 
@@ -942,6 +981,11 @@ def render_lean(facts):
     L.append(f"  priv := [{', '.join(map(str, facts['private']))}]")
     L.append(f"  nNames := {facts['n_bindable']}")
     L.append(f"  slotBits := {(len(facts['modules']) + 2).bit_length()}")
+    L.append(f"  absent := {facts['venv_env']}    -- as installed here")
+    L.append(f"  envs := [{', '.join(map(str, facts['envs']))}]")
+    L.append("")
+    L.append("/-- third-party modules imported by import-time code (bit `i` of an environment: `ext[i]` is absent) -/")
+    L.append("def ext : Array String := #[" + ", ".join(_lean_str(x) for x in facts["ext"]) + "]")
     L.append("")
     L.append("/-- display strings of the interned identifiers (used by the driver only, never by a theorem) -/")
     L.append("def names : Array String := #[")
